@@ -504,6 +504,37 @@ def static_type_check(cpp, observed):
     return None
 
 
+_FN = re.compile(r"^[A-Za-z_][\w<>:, ]*?\b([A-Za-z_]\w*)\(([^)]*)\) \{\n(.*?)^\}", re.M | re.S)
+
+
+def scope_rule(src, cpp):
+    """Python's own symbol tables say which names a helper binds locally; each of them that also exists at top level must be declared inside the
+    helper's C++ body (or be a parameter / a loop variable declared by its `for`), otherwise the helper writes to the global of the same name."""
+    import symtable
+
+    try:
+        top = symtable.symtable(src, "<script>", "exec")
+    except SyntaxError:
+        return None
+    globs = {sym.get_name() for sym in top.get_symbols() if sym.is_assigned()}
+    bodies = {}
+    for m in _FN.finditer(cpp):
+        bodies.setdefault(m.group(1), []).append((m.group(2), m.group(3)))
+    for child in top.get_children():
+        if child.get_type() != "function" or child.get_name() not in bodies:
+            continue
+        locs = [sym.get_name() for sym in child.get_symbols() if sym.is_local() and sym.is_assigned() and not sym.is_parameter()]
+        for name in sorted(set(locs) & globs):
+            for params, body in bodies[child.get_name()]:
+                if re.search(rf"\b{name}\b", params):
+                    continue
+                if not re.search(rf"\b{name}\s*[-+*/%&|^]?=[^=]", body):
+                    continue   # never written in this variant (constant-folded away): nothing can leak
+                if not re.search(rf"(?:\b(?:int|float|bool|String|long|double|char|auto|unsigned)|>)\s+{name}\b", body):
+                    return f"helper {child.get_name()!r} binds {name!r} locally in Python, but its C++ body assigns {name!r} without declaring it (the top-level {name!r} is overwritten)"
+    return None
+
+
 def _tape(t):
     return {k: {int(p): v for p, v in d.items()} for k, d in t.items()}
 
@@ -514,6 +545,10 @@ def evaluate_case(case, off=frozenset()):
         msg = static_type_check(out.cpp, out.host.get("observed", {}))
         if msg:
             out.status, out.bucket, out.detail = "FAIL", "declared-type-too-narrow", msg
+    if out.status == "ok" and out.cpp:
+        msg = scope_rule(case["src"], out.cpp)
+        if msg:
+            out.status, out.bucket, out.detail = "FAIL", "helper-local-leaks-into-global", msg
     return out
 
 
@@ -524,12 +559,72 @@ def nontrivial(case, out):
     return multi or bool(set(case["labels"]) & {"branch_hoist", "elif_hoist", "for_hoist", "while_hoist", "return_join", "if_else_join"})
 
 
+@st.composite
+def scope_script(draw):
+    """a helper that binds the name of a top-level variable through one of Python's binding constructs, at nesting depth 1-3; judged by the scope
+    rule only (some of these constructs - try/except - are open findings of their own and do not compile)"""
+    g = draw(st.sampled_from(["level", "total", "k", "idx"]))
+    gval, lval = draw(st.sampled_from([("3", "0.25"), ("0.5", "7"), ("3", "9"), ("'a'", "2"), ("True", "1.5")]))
+    how = draw(st.sampled_from(["except", "try_body", "try_else", "finally", "for_body", "while_body", "if_in_for", "else_arm", "elif_arm", "tuple", "aug_after", "for_var", "nested3"]))
+    b = {"except": ["try:", "    q = v + 1", "except Exception:", f"    {g} = {lval}", f"    q = {g}"],
+         "try_body": ["try:", f"    {g} = {lval}", f"    q = {g}", "except Exception:", "    q = 0"],
+         "try_else": ["try:", "    q = v", "except Exception:", "    q = 0", "else:", f"    {g} = {lval}", f"    q = {g}"],
+         "finally": ["try:", "    q = v", "finally:", f"    {g} = {lval}"],
+         "for_body": ["for j in range(2):", f"    {g} = {lval}", f"q = {g}"],
+         "while_body": ["w = 1", "while w > 0:", "    w = w - 1", f"    {g} = {lval}", f"q = {g}"],
+         "if_in_for": ["for j in range(2):", "    if j > 0:", f"        {g} = {lval}", "q = v"],
+         "else_arm": ["if v > 100:", "    q = 1", "else:", f"    {g} = {lval}", f"    q = {g}"],
+         "elif_arm": ["if v > 100:", "    q = 1", "elif v > 50:", "    q = 2", "elif v > -5:", f"    {g} = {lval}", f"    q = {g}", "else:", "    q = 3"],
+         "tuple": [f"{g}, q = {lval}, v"],
+         "aug_after": [f"{g} = {lval}", f"{g} += 1", f"q = {g}"],
+         "for_var": [f"for {g} in range(3):", f"    q = {g}"],
+         "nested3": ["for j in range(2):", "    if j >= 0:", "        while j > 5:", f"            {g} = {lval}", "            j = j - 1", "q = v"]}[how]
+    pre = ["q = 0"] if how in ("if_in_for", "nested3", "for_var", "finally", "except", "try_else") else []
+    where = draw(st.sampled_from(["before", "after"]))
+    lines = [HEAD.rstrip("\n")] + ([f"{g} = {gval}"] if where == "before" else [])
+    lines += ["def helper(v):"] + ["    " + x for x in pre + b] + ["    return q"]
+    lines += ([f"{g} = {gval}"] if where == "after" else []) + ["r = helper(2)", "mon.write(r)", f"mon.write({g})"]
+    return {"src": "\n".join(lines) + "\n", "how": how}
+
+
+def run_scope(name, seed, tier, n):
+    r = Result()
+    found = {}
+
+    @hseed(seed)
+    @hyp_settings(n, phases=(Phase.generate,))
+    @given(scope_script())
+    def prop(case):
+        from vlib import fwbuild as fb
+
+        try:
+            cpp = fb.transpile(case["src"])
+        except ValueError:
+            r.count("scope:rejected:" + case["how"]); r.case(case, False)
+            return
+        except Exception as e:
+            r.count("scope:rejected-other"); r.case(case, False)
+            return
+        r.count("scope:" + case["how"])
+        msg = scope_rule(case["src"], cpp)
+        r.case(case, True)
+        if msg:
+            found.setdefault("helper-local-leaks-into-global", (case, msg))
+
+    prop()
+    for b, (case, msg) in found.items():
+        r.fail(b, {"src": case["src"], "n": 0, "tape": {"analog": {}, "digital": {}}, "scope_only": True}, "names a helper binds are its own (Python scoping)", msg)
+    return r
+
+
 def plan(tier):
     n = 40 if tier == "quick" else 800
-    return [(f"gen-{i}", {"n": n}) for i in range(16)]
+    return [(f"gen-{i}", {"n": n}) for i in range(16)] + [(f"scope-{i}", {"n": 60 if tier == "quick" else 1500}) for i in range(2)]
 
 
 def run_shard(name, seed, tier, n):
+    if name.startswith("scope"):
+        return run_scope(name, seed, tier, n)
     r = Result()
     found = {}
 
@@ -582,6 +677,14 @@ def shrink_lines(case, bucket, max_evals=40):
 
 
 def replay(case):
+    if case.get("scope_only"):
+        from vlib import fwbuild as fb
+
+        try:
+            msg = scope_rule(case["src"], fb.transpile(case["src"]))
+        except ValueError:
+            return []
+        return [{"bucket": "helper-local-leaks-into-global", "case": case, "expected": "names a helper binds are its own (Python scoping)", "observed": msg}] if msg else []
     o = evaluate_case(case)
     if o.status == "FAIL":
         return [{"bucket": o.bucket, "case": case, "expected": "same values as CPython; declared types hold them", "observed": o.detail}]
